@@ -241,8 +241,24 @@ class Effects:
         return None
 
     def _calls_effects(self, node, env, env_types, fi, s):
+        todo_ = []
         for c in [n for n in walk_local(node) if isinstance(n, ast.Call)]:
             callee, kind = self.resolve_call(fi, c, env_types)
+            if callee is None and isinstance(c.func, ast.Name):
+                # a call through a local name bound to a function or a bound method (fit = self._fit_a / self._fit_b; fit(...)): every binding is a callee
+                alts = []
+                for n_ in walk_local(fi.node):
+                    if isinstance(n_, ast.Assign) and any(isinstance(t_, ast.Name) and t_.id == c.func.id for t_ in n_.targets) and isinstance(n_.value, (ast.Name, ast.Attribute, ast.IfExp)):
+                        for v_ in ([n_.value.body, n_.value.orelse] if isinstance(n_.value, ast.IfExp) else [n_.value]):
+                            c2 = ast.copy_location(ast.Call(func=v_, args=c.args, keywords=c.keywords), c)
+                            ce_, k_ = self.resolve_call(fi, c2, env_types)
+                            if ce_ is not None:
+                                alts.append((c2, ce_, k_))
+                if alts:
+                    todo_ += alts
+                    continue
+            todo_.append((c, callee, kind))
+        for c, callee, kind in todo_:
             if callee is not None:
                 s.calls.append((callee, c))
                 cs = self.summary(callee)
